@@ -263,10 +263,12 @@ type c03Case struct {
 	pods       map[string]*c03Pod
 	special    bool // some pods go to the default / system quota in this case
 	late       []*c03Late
-	lateErr    bool // a late bind error happened in this case (signature attribution only)
-	parentPods bool // the "+parent-pods" units: pods may name a parent quota (SupportParentQuotaSubmitPod)
-	parkUpd    bool // the "+parked-pod-updates" units: status updates also reach pods still parked in the default quota
-	podUpd     bool // the "+pod-updates" units: status updates of pods and the late bind error (Unreserve after the binding is visible)
+	lateErr    bool   // a late bind error happened in this case (signature attribution only)
+	parentPods bool   // the "+parent-pods" units: pods may name a parent quota (SupportParentQuotaSubmitPod)
+	hotQuota   string // +parked-late-bind-error: the quota a rolled-back running pod was just moved into (new pods aim there)
+	parkLate   bool   // the "+parked-late-bind-error" unit: the late bind error also hits pods bound while parked in the default quota
+	parkUpd    bool   // the "+parked-pod-updates" units: status updates also reach pods still parked in the default quota
+	podUpd     bool   // the "+pod-updates" units: status updates of pods and the late bind error (Unreserve after the binding is visible)
 	baseDims   []corev1.ResourceName
 	tight      bool // small cluster: runtime quotas well below max
 	podSeq     int
@@ -395,13 +397,17 @@ func c03NodeObj(n *c03Node) *corev1.Node {
 
 // ---------------------------------------------------------------- plugin (one per test function, manager rebuilt per case)
 
-func c03NewPlugin(t *testing.T) *Plugin {
-	suit := newPluginTestSuit(t, nil)
-	// the suite turns klog up to -v=5; the harness wants silence (speed, and no wall-clock noise in the replay output)
+func c03Quiet() {
 	var lvl klog.Level
 	_ = lvl.Set("0")
 	klog.LogToStderr(false)
 	klog.SetOutput(io.Discard)
+}
+
+func c03NewPlugin(t *testing.T) *Plugin {
+	suit := newPluginTestSuit(t, nil)
+	// the suite turns klog up to -v=5; the harness wants silence (speed, and no wall-clock noise in the replay output)
+	c03Quiet()
 	// exactly what the scheduler does: New() through the framework-extender proxy. The informer factories are never
 	// started: every event the informers would deliver is delivered by the harness, synchronously and in a generated order.
 	pl, err := suit.proxyNew(context.TODO(), suit.elasticQuotaArgs, suit.Handle)
@@ -707,6 +713,9 @@ func (h *c03Case) createPod(t *rapid.T) *c03Pod {
 		labels[extension.LabelQuotaName] = extension.SystemQuotaName
 	default:
 		q := h.quotas[rapid.SampledFrom(h.leaves).Draw(t, "leaf")]
+		if h.parkLate && h.hotQuota != "" && !h.quotas[h.hotQuota].IsParent && rapid.Bool().Draw(t, "toHotQuota") {
+			q = h.quotas[h.hotQuota]
+		}
 		if h.parentPods {
 			// feature gate SupportParentQuotaSubmitPod (webhook side only: ValidateAddPod lets a pod name a parent quota)
 			var parents []string
@@ -920,7 +929,7 @@ func (h *c03Case) windowSig(q *c03Quota, sig string) string {
 	for _, a := range h.chain(q) {
 		upd = upd || a.UpdWindow
 	}
-	if upd {
+	if upd && !h.lateErr {
 		return c03UpdWindowSig
 	}
 	tainted := q.Window
@@ -1056,12 +1065,15 @@ func (h *c03Case) deletePod(t *rapid.T, pd *c03Pod) {
 // pod event (OnPodUpdate: bound, not terminated, not assigned -> assign), which bypasses admission.
 func (h *c03Case) bindCallReturns(t *rapid.T, pd *c03Pod) {
 	pd.BindCall = false
-	if rapid.IntRange(0, 2).Draw(t, "bindCallError") == 0 {
+	if rapid.IntRange(0, 2).Draw(t, "bindCallError") == 0 && !(h.parkLate && pd.Parked) {
 		h.logf("bindCallOK %s", pd.Name)
 		return
 	}
 	h.p.Unreserve(context.TODO(), framework.NewCycleState(), pd.Obj, "n1")
 	forget := rapid.Bool().Draw(t, "forgetPod")
+	if h.parkLate && pd.Parked && forget {
+		forget = rapid.Bool().Draw(t, "forgetParkedPod") // mostly leave the pod in the default quota's cache
+	}
 	if forget {
 		h.p.handlePodDelete(pd.Obj)
 		h.c.Class("forget-pod-after-late-bind-error")
@@ -1113,6 +1125,10 @@ func (h *c03Case) podStatusUpdate(t *rapid.T, pd *c03Pod) {
 			a.Imported = true
 		}
 		h.c.Class("rolled-back-bound-pod-charged-again-by-update")
+		if window {
+			h.c.Class("rolled-back-parked-pod-moved-and-charged-by-update-in-window")
+			h.hotQuota = pd.Quota
+		}
 	}
 }
 
@@ -1143,7 +1159,7 @@ func (h *c03Case) finishBinding(t *rapid.T, pd *c03Pod) {
 	pd.State = c03Bound
 	h.c.Class("bind")
 	h.logf("bind %s", pd.Name)
-	if h.podUpd && !window && !pd.Parked && rapid.Bool().Draw(t, "bindCallStillOut") {
+	if h.podUpd && !window && (!pd.Parked || h.parkLate) && (rapid.Bool().Draw(t, "bindCallStillOut") || (h.parkLate && pd.Parked)) {
 		pd.BindCall = true // the informer saw the binding before the scheduler's bind call returned
 	}
 	if window {
@@ -1650,7 +1666,8 @@ func c03RunX(t *testing.T, unit string, rtOn, parOn, podUpd, parkUpd bool) {
 	c03RunY(t, unit, rtOn, parOn, podUpd, parkUpd, false)
 }
 
-func c03RunY(t *testing.T, unit string, rtOn, parOn, podUpd, parkUpd, parentPods bool) {
+func c03RunY(t *testing.T, unit string, rtOn, parOn, podUpd, parkUpd, parentPods bool, more ...bool) {
+	parkLate := len(more) > 0 && more[0]
 	rec := vk.New(t, "C03", unit)
 	p := c03NewPlugin(t)
 	c03PinSteps()
@@ -1668,7 +1685,7 @@ func c03RunY(t *testing.T, unit string, rtOn, parOn, podUpd, parkUpd, parentPods
 			rapid.Uint64().Draw(t, "salt")
 		}
 		h := c03NewCase(t, p, c, rtOn, parOn, parentPods)
-		h.podUpd, h.parkUpd, h.parentPods = podUpd, parkUpd, parentPods
+		h.podUpd, h.parkUpd, h.parentPods, h.parkLate = podUpd, parkUpd, parentPods, parkLate
 
 		doSchedule := func(t *rapid.T) {
 			if h.dead {
@@ -1801,7 +1818,7 @@ func c03RunY(t *testing.T, unit string, rtOn, parOn, podUpd, parkUpd, parentPods
 				for _, n := range h.podNames() {
 					if pd := h.pods[n]; pd.Parked && pd.Label == l.Name {
 						parked = true
-						held = held || pd.holds()
+						held = held || pd.holds() || pd.State == c03Limbo
 					}
 				}
 				// mostly once a pod waits for it, preferably one that already runs in the default quota
@@ -1921,4 +1938,11 @@ func TestVerifC03ParentPodsRuntimeOnParentOff(t *testing.T) {
 }
 func TestVerifC03ParentPodsRuntimeOffParentOff(t *testing.T) {
 	c03RunY(t, "runtime-off/parent-off+parent-pods", false, false, false, false, true)
+}
+
+// +parked-pod-updates plus the late bind error for pods that were bound while parked in the default quota: such a pod
+// sits in the default quota unassigned (or was forgotten) when its own quota appears; the update that moves it over has
+// to charge the running pod to the new quota
+func TestVerifC03ParkedLateBindErrorRuntimeOffParentOff(t *testing.T) {
+	c03RunY(t, "runtime-off/parent-off+parked-late-bind-error", false, false, true, true, false, true)
 }
